@@ -129,7 +129,7 @@ pub fn uri_of(path: &str) -> String {
 }
 
 pub fn path_of_uri(uri: &str) -> String {
-    uri.strip_prefix("file://").unwrap_or(uri).to_string()
+    crate::model::norm_path(uri.strip_prefix("file://").unwrap_or(uri))
 }
 
 fn frame(v: &Value) -> Vec<u8> {
@@ -302,6 +302,13 @@ impl<'a> Client<'a> {
                     self.hist.lock().unwrap().cancelled.insert(id);
                     self.notify("$/cancelRequest", json!({"id": id}));
                 }
+            }
+            Op::EmptyChange { path } => {
+                let version = self.bump_version(path, false);
+                self.notify(
+                    "textDocument/didChange",
+                    json!({"textDocument":{"uri":uri_of(path),"version":version},"contentChanges":[]}),
+                );
             }
             Op::Save { path } => {
                 self.notify("textDocument/didSave", json!({"textDocument":{"uri":uri_of(path)}}));
